@@ -364,6 +364,114 @@ def run(report, p):
     if n_sets == 0:
         raise AnalysisError("no iteration over a set found (rename detection loops expected)")
 
+    # ------------------------------------------------------------------ R13.5
+    r5 = report.rule(
+        "R13.5",
+        "no decision is taken on the spelling of an absolute location: string decomposition (split / partition / startswith / endswith / find / substring `in` / re / fnmatch) "
+        "is never applied to a path that still contains the absolute location of the root (comparing two absolute paths with each other, and taking the last component, is fine)",
+        3,
+    )
+    from .common import commands as _commands
+
+    shipped = set()
+    for c in _commands(p).values():
+        shipped |= set(p.reachable([c.qual]))
+
+    def abs_string(t, depth=0):
+        """string-valued term that carries the absolute location: description or None"""
+        if not isinstance(t, tuple) or depth > 12:
+            return None
+        k = t[0]
+        if k == "alt":
+            for a in t[1]:
+                d = abs_string(a, depth + 1)
+                if d:
+                    return d
+            return None
+        if k == "param":
+            return f"command path argument {t[2]}" if (t[1], t[2]) in rps else None
+        if k == "attr":
+            return f"absolute field .{t[2]}" if t[2] in ("asc_mhl_path", "file_path") else None
+        if k == "elem":
+            inner = t[1]
+            # for root, dirs, files in os.walk(X): element 0 is X-prefixed, 1 and 2 are plain names
+            if inner[0] == "elem" and inner[1][0] == "call" and inner[1][1] in ("ext:os.walk", "ext:os.fwalk"):
+                if t[2] == ("const", 0):
+                    for a in inner[1][2]:
+                        if tainted_leaves(p, a, rps):
+                            return "folder path yielded by os.walk(<absolute root>)"
+                return None
+            if inner[0] == "call" and inner[1].endswith("post_order_lexicographic") and t[2] is None:
+                return None
+            return None
+        if k == "op" and t[1] in ("Add", "Mod", "fstring", "format"):
+            for a in t[2]:
+                d = abs_string(a, depth + 1)
+                if d:
+                    return d
+            return None
+        if k == "call":
+            nm = t[1]
+            if any(nm.endswith(x) for x in SANITISERS):
+                return None
+            if any(nm.endswith(x) for x in ABS_SOURCES):
+                return nm.split(":")[-1] + "()"
+            if nm.endswith("get_root_path"):
+                return "history root path (absolute)"
+            if nm in ("ext:os.path.join", "ext:os.path.normpath", "ext:os.path.dirname", "ext:os.path.normcase", "builtin:str", "ext:os.fspath", "ext:os.path.commonpath", "ext:os.path.commonprefix"):
+                for a in t[2]:
+                    d = abs_string(a, depth + 1)
+                    if d:
+                        return d
+            return None
+        return None
+
+    DECOMP = {"split", "rsplit", "partition", "rpartition", "startswith", "endswith", "find", "rfind", "index", "rindex", "count", "removeprefix", "removesuffix"}
+    SUBJECT_ARG = {"re.match": 1, "re.search": 1, "re.findall": 1, "re.fullmatch": 1, "re.split": 1, "fnmatch.fnmatch": 0, "fnmatch.fnmatchcase": 0}
+
+    def taint_of(e, f):
+        for o in pr.origins(e, f):
+            full = pr.resolve(o, depth=4)
+            d = abs_string(full)
+            if d:
+                return d
+        return None
+
+    for fq in sorted(shipped):
+        f = p.funcs[fq]
+        if f.module.name in unshipped:
+            continue
+        for n in walk_no_nested(f.node):
+            subject = other = None
+            what = None
+            if isinstance(n, ast.Call) and isinstance(n.func, ast.Attribute) and n.func.attr in DECOMP and not isinstance(n.func.value, ast.Constant):
+                subject, other, what = n.func.value, (n.args[0] if n.args else None), f".{n.func.attr}()"
+                par = parent(n)
+                # <abs>.split(sep)[-1] / rsplit(sep, 1)[-1]: the last component (a name), not the location
+                if n.func.attr in ("split", "rsplit") and isinstance(par, ast.Subscript) and par.value is n and isinstance(par.slice, ast.UnaryOp) and isinstance(par.slice.op, ast.USub) and isinstance(par.slice.operand, ast.Constant) and par.slice.operand.value == 1:
+                    r5.instance(f, n, norm(n)[:70] + " [last component]")
+                    continue
+            elif isinstance(n, ast.Call) and norm(n.func) in SUBJECT_ARG and len(n.args) > SUBJECT_ARG[norm(n.func)]:
+                subject, what = n.args[SUBJECT_ARG[norm(n.func)]], norm(n.func)
+            elif isinstance(n, ast.Compare) and len(n.ops) == 1 and isinstance(n.ops[0], (ast.In, ast.NotIn)):
+                right = n.comparators[0]
+                # substring test only: the right operand is itself a decomposed / string path (collections of paths compare by equality)
+                if isinstance(right, ast.Call) and isinstance(right.func, ast.Attribute) and right.func.attr in DECOMP:
+                    continue  # the inner call is judged on its own
+                subject, other, what = right, n.left, "substring `in`"
+            else:
+                continue
+            r5.instance(f, n, norm(n)[:80])
+            d = taint_of(subject, f)
+            if d is None:
+                r5.check(True, f, n, "")
+                continue
+            # absolute against absolute (containment / equality of two locations) does not depend on where the tree is
+            if other is not None and taint_of(other, f) is not None:
+                r5.check(True, f, n, "")
+                continue
+            r5.check(False, f, n, f"{what} is applied to a path that contains the absolute location of the root ({d}): the outcome depends on the names of the folders the tree is stored under", construct=f"{what} on absolute path: {norm(n)[:70]}")
+
     # ---- rules shared with other properties (same mechanism, same rule, reported under every property it can break)
     include_rules(report, p, 'c07', ['R7.2'], 'directory hashes must not depend on enumeration order: the list hash sorts')
     report.not_decided += ["byte identity of manifests at run time", "behaviour under exotic spellings of the root path (a/../b, symlinked ancestors)", "order of 'missing file' lines in the console output"]
